@@ -144,6 +144,18 @@ func runC09(sc *SessScript) *sim.Outcome {
 			p := s.W.P[op.W&1]
 			p.R.FailAt, p.R.FailFor, p.R.FailMode = p.R.Reads(), 1, op.I%2
 			o.Class("randomness-fault-armed")
+		case "halfrefresh":
+			// a refresh that does not complete: the query arrives, the answering D-H Commit is lost, and the old
+			// session stays in use - nothing of it may be given up on the strength of the attempt
+			s.W.AgeClock(0, 3*60e9)
+			s.W.AgeClock(1, 3*60e9)
+			deliverAll()
+			s.Exec(SOp{K: "query", W: op.W})
+			if q := s.W.Q[op.W&1]; len(q) > 0 {
+				s.DeliverQ(op.W&1, len(q)-1)
+			}
+			s.W.Q[0], s.W.Q[1] = nil, nil
+			o.Class("refresh-left-unfinished")
 		case "refresh":
 			s.W.AgeClock(0, 3*60e9)
 			s.W.AgeClock(1, 3*60e9)
@@ -234,7 +246,7 @@ func init() { reg("C09disclose", runC09) }
 
 func TestProp_C09_Disclosure(t *testing.T) {
 	defer sim.MarkCompleted("C09disclose", false)
-	kinds := []string{"pp", "pp", "pp", "badmac", "badmac", "cross", "cross", "cross", "burst", "burst", "send", "send", "dl", "dl", "dl", "refresh", "smp", "ans", "xk", "age", "flush", "fault", "fault"}
+	kinds := []string{"pp", "pp", "pp", "badmac", "badmac", "cross", "cross", "cross", "burst", "burst", "send", "send", "dl", "dl", "dl", "refresh", "halfrefresh", "halfrefresh", "smp", "ans", "xk", "age", "flush", "fault", "fault"}
 	rapid.Check(t, func(rt *rapid.T) {
 		sc := &SessScript{Cfg: genSessCfg(rt)}
 		n := rapid.IntRange(2, 30).Draw(rt, "nops")
